@@ -181,6 +181,107 @@ def r10_5(run, model):
     run.ob("R10.5", "lexer|all ten suffixes", need <= set(seen), site(TB.LEXER, None), f"suffix tokens: {sorted(seen)}", witness="a suffixed literal of a missing width lexes as Int followed by an identifier")
 
 
+GOPP = "crates/compiler/src/pprint/go_pprint.rs"
+GOC = "crates/compiler/src/go/compile.rs"
+
+
+def r10_7(run, model):
+    run.rule("R10.7", "a float literal reaches Go as a float constant: the Go printer's arm for Expr::Float does not print the bare f64 "
+                      "(`7.0` would print as `7`, and `7 / 2` is an untyped *integer* constant expression in Go)")
+    n = 0
+    for f in model.fns(GOPP):
+        if f.body is None:
+            continue
+        for m in S.find(f.body, "Match"):
+            for arm in m["arms"]:
+                pt = S.norm_ws(run.facts.text(GOPP, arm["pat"]["sp"]))
+                if not re.search(r"Expr::Float\{", pt):
+                    continue
+                n += 1
+                bt = S.norm_ws(run.facts.text(GOPP, arm["body"]["sp"]))
+                bare = re.fullmatch(r"RcDoc::as_string\(\*?value\)|RcDoc::text\(value\.to_string\(\)\)|RcDoc::text\(format!\(\"\{\}\",value\)\)", bt) is not None
+                run.ob("R10.7", f"{f.name}|float literals keep a fractional form", not bare, site(GOPP, arm["sp"]),
+                       f"Expr::Float is printed by `{bt[:70]}`" + (" (Display of f64 drops `.0`)" if bare else ""),
+                       witness="let x: float64 = 7.0 / 2.0 is emitted as `var x float64 = 7 / 2`, which Go evaluates to 3")
+    run.floor("Go printer arms for float literals", n, 1)
+
+
+def r10_8(run, model):
+    run.rule("R10.8", "a numeric literal stored in an interface-typed Go slot carries its goml type: the `data` field of a dyn value is not "
+                      "the bare compiled operand (an untyped constant in `any` gets Go's default type int/float64 and the vtable wrapper's "
+                      "type assertion fails)")
+    f = model.fn("compile_cexpr", GOC)
+    found = False
+    for m in S.find(f.body, "Match"):
+        for arm in m["arms"]:
+            pt = S.norm_ws(run.facts.text(GOC, arm["pat"]["sp"]))
+            if not re.search(r"CExpr::EToDyn\{", pt):
+                continue
+            for sl in S.find(arm["body"], "Struct"):
+                if sl["segs"][-1] != "StructLiteral":
+                    continue
+                bt = S.norm_ws(run.facts.text(GOC, sl["sp"]))
+                mm = re.search(r'\("data"\.to_string\(\),([^)]*\)?)\)', bt)
+                if not mm:
+                    continue
+                found = True
+                val = mm.group(1)
+                bare = re.fullmatch(r"compile_imm\(goenv,&?expr\)", val) is not None
+                run.ob("R10.8", "compile_cexpr|EToDyn data keeps the operand's type", not bare, site(GOC, sl["sp"]),
+                       f"data: {val}" + (" (a literal operand becomes an untyped Go constant)" if bare else ""),
+                       witness="fn pr(d: dyn Show) ..; pr(7) emits dyn__Show{data: 7, ..}; the wrapper does self.(int32) on a Go int: run-time panic")
+    if not found:
+        raise AnalysisIncomplete("EToDyn struct literal with a data field not found")
+
+
+def r10_9(run, model):
+    run.rule("R10.9", "typer and TAST builder agree on the width of an unsuffixed integer pattern: check_pat_int lets the literal take the "
+                      "scrutinee's integer type, so build_pat must build the Prim from the recorded pattern type, not with a fixed-width constructor")
+    BUILD = "crates/compiler/src/typer/tast_builder.rs"
+    cp = model.fn("check_pat_int", CHECK, impl="Typer")
+    dynamic = any(True for _ in S.calls(cp.body, "integer_literal_target"))
+    bp = model.fn("build_pat", BUILD)
+    found = False
+    for m in S.find(bp.body, "Match"):
+        for arm in m["arms"]:
+            pt = S.norm_ws(run.facts.text(BUILD, arm["pat"]["sp"]))
+            if not re.fullmatch(r"hir::Pat::PInt\{value\}", pt):
+                continue
+            found = True
+            fixed = [st["segs"][-1] for st in S.find(arm["body"], "Struct") if len(st["segs"]) >= 2 and st["segs"][-2] == "Prim"]
+            uses_ty = any(c["k"] in ("Call", "MethodCall") and any("ty" in S.idents(a) for a in c["args"]) and
+                          re.search(r"prim|literal|int", S.callee_name(c) or "", re.I) for c in S.walk(arm["body"]))
+            ok = (not dynamic) or (uses_ty and not fixed)
+            run.ob("R10.9", "build_pat|unsuffixed integer pattern built at the recorded type", ok, site(BUILD, arm["sp"]),
+                   f"typer target is {'the scrutinee type (integer_literal_target)' if dynamic else 'fixed'}; builder uses " +
+                   (f"fixed constructor Prim::{fixed[0]}" if fixed else "a constructor chosen from the type"),
+                   witness="fn f(x: int64) -> int32 { match x { 1 => 10, _ => 0 } } panics in compile_match: `expected integer primitive pattern` (Prim::Int32 under type int64)")
+    if not found:
+        raise AnalysisIncomplete("build_pat: PInt arm not found")
+
+
+def r10_10(run, model):
+    run.rule("R10.10", "Go's constant-expression semantics never replace goml's fixed-width arithmetic: an operator whose operands are both "
+                       "literals is not emitted as `lit op lit` (Go evaluates that exactly at compile time: overflow is a compile error, "
+                       "no wrap-around) - the arm for EBinary/EUnary treats literal operands specially (folds with wrapping, or binds one to a variable)")
+    f = model.fn("compile_cexpr", GOC)
+    found = 0
+    for m in S.find(f.body, "Match"):
+        for arm in m["arms"]:
+            pt = S.norm_ws(run.facts.text(GOC, arm["pat"]["sp"]))
+            mm = re.search(r"CExpr::(EBinary)\{", pt)
+            if not mm:
+                continue
+            found += 1
+            special = "ImmPrim" in S.norm_ws(run.facts.text(GOC, arm["body"]["sp"])) or any(
+                re.search(r"fold|const|literal", S.callee_name(c) or "", re.I) for c in S.calls(arm["body"]))
+            run.ob("R10.10", f"compile_cexpr|{mm.group(1)} with two literal operands is not a Go constant expression", special, site(GOC, arm["sp"]),
+                   "literal operands are treated specially" if special else "both operands go through compile_imm unchanged: `127i8 + 1i8` is emitted as `127 + 1`",
+                   witness="let a: int8 = 127i8 + 1i8 emits `var a int8 = 127 + 1` (Go: constant 128 overflows int8); let c: uint8 = 0u8 - 1u8 emits `0 - 1`")
+    if not found:
+        raise AnalysisIncomplete("compile_cexpr: EBinary arm not found")
+
+
 def r10_6(run, model):
     run.rule("R10.6", "one type per literal: where a literal is range-checked/parsed by parse_*_literal_with_ty(.., X) and falls back to "
                       "Prim::zero_for_int_ty(Y) / from_float_literal(0.0, Y), X and Y are the same type expression (the literal's own type), "
@@ -211,6 +312,10 @@ def r10_6(run, model):
 
 def run(run, model):
     run.try_rule(r10_6, model)
+    run.try_rule(r10_7, model)
+    run.try_rule(r10_8, model)
+    run.try_rule(r10_9, model)
+    run.try_rule(r10_10, model)
     run.try_rule(r10_1, model)
     run.try_rule(r10_2, model)
     run.try_rule(r10_3, model)
